@@ -412,6 +412,15 @@ func GenInput(t *rapid.T, p *Profile) *Input {
 				Arg: rapid.SampledFrom([]int64{1, 999, 1000, 1000000, 61000000, 3600000000}).Draw(t, "clockJump")})
 		}
 	}
+	// a storm of small steps of the clock spread over the run: timers of a few milliseconds to
+	// a few seconds (leases, back-off, linger, polling) fire while requests are in flight
+	if pct(t, p.ClockPct/2+4, "clockStorm") {
+		n := rapid.IntRange(4, 14).Draw(t, "nStorm")
+		for i := 0; i < n; i++ {
+			in.Faults = append(in.Faults, Fault{Kind: "clock", Step: rapid.IntRange(1, 300).Draw(t, "stormStep"),
+				Arg: rapid.SampledFrom([]int64{1000, 60000, 300000, 1100000, 2500000, 6000000, 31000000}).Draw(t, "stormUs")})
+		}
+	}
 	sortFaults(in.Faults)
 	if pct(t, p.WriteFailPct, "hasWriteFail") {
 		in.SFaults = append(in.SFaults, StoreFail{Ledger: rapid.IntRange(0, cfg.Ledgers-1).Draw(t, "wfLedger"), Method: "InsertLogs",
